@@ -326,8 +326,8 @@ class Array1D(Structure):
         -------
         The HDU containing the data and its header which can then be written to .fits.
         """
-        return array_2d_util.hdu_for_output_from(
-            array_2d=self.native, header_dict=self.pixel_scale_header
+        return array_1d_util.hdu_for_output_from(
+            array_1d=self.native, header_dict=self.pixel_scale_header
         )
 
     def output_to_fits(self, file_path: Union[Path, str], overwrite: bool = False):
